@@ -11,6 +11,7 @@ import (
 	"math/rand"
 	"os"
 	"path/filepath"
+	"runtime/debug"
 	"strconv"
 	"strings"
 	"sync"
@@ -54,6 +55,7 @@ func (fakeFamily) FamilyTime() int64             { return 1000 }
 // the real ReplicaHandler builds the follower's local replicator when a stream starts (it is never stepped here)
 func (fakeFamily) AckSequence(int32, func(int64)) {}
 func (fakeFamily) Retain()                        {}
+func (fakeFamily) Release()                       {}
 
 type fakeStateMgr struct{ storage.StateManager }
 
@@ -70,6 +72,8 @@ type followerNode struct {
 	part    replica.Partition
 	epoch   int
 	failPut bool
+	// the RPC handler of the follower PROCESS: it outlives a partition that the follower's own log GC destroys
+	handler *storagerpc.ReplicaHandler
 }
 
 // a follower whose Queue.Put can be made to fail (disk full / page not acquirable): everything else is the real log
@@ -134,21 +138,37 @@ type replFakeMgr struct {
 func (m replFakeMgr) GetOrCreateLog(string) replica.WriteAheadLog { return replFakeWAL{f: m.f} }
 
 func (c *replClient) handler() *storagerpc.ReplicaHandler {
-	return storagerpc.NewReplicaHandler(replFakeMgr{f: c.f})
+	if c.f.handler == nil {
+		c.f.handler = storagerpc.NewReplicaHandler(replFakeMgr{f: c.f})
+	}
+	return c.f.handler
 }
 
 func (c *replClient) Reset(ctx context.Context, in *protoReplicaV1.ResetIndexRequest, _ ...grpc.CallOption) (*protoReplicaV1.ResetIndexResponse, error) {
 	if c.faults.reset {
 		return nil, errors.New("injected: reset failed")
 	}
-	return c.handler().Reset(ctx, in)
+	return replGuard(func() (*protoReplicaV1.ResetIndexResponse, error) { return c.handler().Reset(ctx, in) })
 }
 
 func (c *replClient) GetReplicaAckIndex(ctx context.Context, in *protoReplicaV1.GetReplicaAckIndexRequest, _ ...grpc.CallOption) (*protoReplicaV1.GetReplicaAckIndexResponse, error) {
 	if c.faults.ack {
 		return nil, errors.New("injected: get ack index failed")
 	}
-	return c.handler().GetReplicaAckIndex(ctx, in)
+	return replGuard(func() (*protoReplicaV1.GetReplicaAckIndexResponse, error) { return c.handler().GetReplicaAckIndex(ctx, in) })
+}
+
+// replGuard: a memory fault inside the handler (a partition whose log was closed and unmapped) is the failure of
+// the RPC -- an observation about the code under test, not the end of the driver
+func replGuard[T any](fn func() (T, error)) (res T, err error) {
+	old := debug.SetPanicOnFault(true)
+	defer debug.SetPanicOnFault(old)
+	defer func() {
+		if r := recover(); r != nil {
+			err = fmt.Errorf("rpc handler fault: %v", r)
+		}
+	}()
+	return fn()
 }
 
 // the server end of one replica stream
@@ -185,7 +205,11 @@ func (c *replClient) Replica(ctx context.Context, _ ...grpc.CallOption) (protoRe
 		in: make(chan *protoReplicaV1.ReplicaRequest), out: make(chan *protoReplicaV1.ReplicaResponse), ready: make(chan struct{})}
 	st := &replStream{c: c, epoch: c.f.epoch, ss: ss, done: make(chan error, 1)}
 	h := c.handler()
-	go func() { st.done <- h.Replica(ss) }()
+	go func() {
+		_, err := replGuard(func() (int, error) { return 0, h.Replica(ss) })
+		ss.readyOnce.Do(func() { close(ss.ready) })
+		st.done <- err
+	}()
 	// nothing of the handler runs beside the driver: wait until it stands at its first Recv (or gave up)
 	select {
 	case <-ss.ready:
@@ -470,14 +494,25 @@ func replHistory(rec *trace.Recorder, dir string, rng *rand.Rand, steps int, tai
 		case "frestart":
 			rec.Emit("FollowerRestart", trace.F{})
 			fol.log.Close()
+			fol.handler = nil // a new process
 			_ = fol.open()
 			script = append(script, "frestart")
 		case "flose":
 			rec.Emit("FollowerLoseLog", trace.F{})
-			fol.log.Close()
+			if rng.Intn(2) == 0 {
+				// the disk was lost with the process
+				fol.log.Close()
+				fol.handler = nil
+				script = append(script, "flose")
+			} else {
+				// the follower's OWN log GC destroyed the partition (writeAheadLog.destroy: stop, close, remove the
+				// directory) -- same process, same RPC handler; the next RPC gets a new partition from the manager
+				fol.part.Stop()
+				_ = fol.part.Close()
+				script = append(script, "flose-gc")
+			}
 			_ = os.RemoveAll(fol.dir)
 			_ = fol.open()
-			script = append(script, "flose")
 		case "gc":
 			rec.Emit("LeaderGC", trace.F{})
 			run.llog.Sync()
